@@ -45,6 +45,16 @@ pub fn gen_case(prop: &PropSpec, rng: &mut Rng, thorough: bool) -> Case {
             case.nodes[i].make_sync();
         }
     }
+    // ... and in one case out of twenty a handler builds, runs and drops a second simulation
+    // (see `Op::Nested`): the outer simulation must not notice.
+    if case.comp.is_none() && !case.nodes.is_empty() && rng.pct(5) {
+        let i = rng.usize(case.nodes.len());
+        if !case.nodes[i].sync_inputs && !case.nodes[i].on.is_empty() {
+            let k = rng.usize(case.nodes[i].on.len());
+            let pos = rng.usize(case.nodes[i].on[k].len() + 1);
+            case.nodes[i].on[k].insert(pos, crate::case::Op::Nested { models: rng.range(1, 9) as u8 });
+        }
+    }
     case
 }
 
